@@ -50,6 +50,12 @@ pub fn panic_class(p: &(dyn std::any::Any + Send)) -> String {
     if msg.contains("deleted bucket") {
         return "panic:deleted".to_string();
     }
+    if msg.contains("Invalid pagesize") {
+        return "panic:pagesize".to_string();
+    }
+    if msg.contains("NO VALID META PAGES") {
+        return "panic:nometa".to_string();
+    }
     let clean: String = msg
         .chars()
         .take(60)
